@@ -10,7 +10,10 @@
             COLOR_dark_red = 1 (same name after stripping the enum-name prefix and normalising case),
             trigger FALSE, COLOR_LIGHT = 1
    enumtype features.enum_type at file / enum level; trigger TRUE: the first value is 1, else 0
-   presence features.field_presence at file / field level; trigger TRUE: the field has `default = 7` *)
+   presence features.field_presence at file / field level; trigger TRUE: the field has `default = 7`
+   aliasres (no feature) file = the syntax; an enum with `reserved 5 to 7`, with (inner = "alias":
+            `option allow_alias = true` and a real alias pair) or without allow_alias; trigger TRUE: a
+            value numbered 6, inside the reserved range, else 8 *)
 EXTENDS Naturals, Sequences, TLC, Json
 
 VARIABLE c
@@ -22,6 +25,8 @@ Cases ==
      : f \in Json3, m \in Json3 \cup {"-"}, e \in Json3, t \in BOOLEAN}
   \cup {[family |-> "enumtype", file |-> f, msg |-> "-", inner |-> e, trigger |-> t] : f \in Enum3, e \in Enum3, t \in BOOLEAN}
   \cup {[family |-> "presence", file |-> f, msg |-> "-", inner |-> e, trigger |-> t] : f \in Pres3, e \in Pres3, t \in BOOLEAN}
+  \cup {[family |-> "aliasres", file |-> f, msg |-> "-", inner |-> e, trigger |-> t]
+          : f \in {"proto2", "proto3", "editions"}, e \in {"alias", "noalias"}, t \in BOOLEAN}
 
 DefaultOf(fam) == CASE fam = "json" -> "ALLOW" [] fam = "enumtype" -> "OPEN" [] OTHER -> "EXPLICIT"
 (* lexical inheritance: innermost explicit setting wins *)
